@@ -212,6 +212,29 @@ def check_line(line, gfa, what, labels, pre=False):
             what, type(e).__name__, str(e)[:200], before), type(e).__name__)
     if after != before:
         raise Violation("original-affected", "editing the clone of %s changed the original side:\nbefore %r\nafter  %r" % (what, before, after))
+    if gfa is not None and line.record_type not in ("H", "#", "S") and line.is_connected():
+        # a copy is taken of the line as it is NOW: once a line it refers to has another identifier, a further
+        # clone writes that identifier, exactly as the original does
+        for s_ in list(gfa.segments):
+            if s_.virtual or not any(x is line for x in s_.all_references):
+                continue
+            old_name = s_.name
+            try:
+                s_.name = "rn9" + str(old_name).replace(",", "")
+            except GfapyError:
+                continue
+            try:
+                c3 = line.clone()
+                now = str(line)
+                if str(c3) != now or not (c3 == line):
+                    raise Violation("clone-stale", "after segment %s was renamed, a new clone of %s writes %r, the original %r" % (old_name, what, str(c3), now), line.record_type)
+                labels["clone_after_rename"] = True
+            finally:
+                s_.name = old_name
+            break
+        if str(line) != before["line"]:
+            raise Violation("original-affected", "renaming a segment there and back changed the written form of %s" % what, "rename")
+        before = snapshot(line, gfa)  # (the rename may have moved the segment within the written Gfa)
     # roles exchanged
     c2 = line.clone()
     b2 = str(c2)
